@@ -112,6 +112,9 @@ def observe(im):
 def run_history(header, hist):
     """Replays hist on a fresh object in lockstep with the model; returns a list of problems (first divergence)."""
     import productmd.images as pi
+    other = pi.Images()                           # an unrelated manifest filled first: nothing of it may influence `im`
+    other.header.version = "1.2"
+    call(other.add, "Other", "x86_64", B.mk_image(other, POOL[2]))
     im = pi.Images()
     c = B.compose_section()
     im.compose.id, im.compose.type, im.compose.date, im.compose.respin = c["id"], c["type"], c["date"], c["respin"]
